@@ -360,7 +360,53 @@ def r7(ctx):
     ctx.floor(R, 2)
 
 
+def r9(ctx):
+    R = "C13-R9"
+    ctx.rule(R, "(a) a dropped listener sweeps only its own half-open children: the sweep in tcp::on_close compares the child's port *and* "
+                "its address family (BindKey::domain) with the listener's - 0.0.0.0:p and [::]:p are distinct listeners; (b) poll_connect "
+                "reports success for every state that is only reachable after the handshake completed: CloseWait (the peer's FIN arrived "
+                "before this poll) is Ok like Established, not `connection refused`; (c) a socket whose handle was dropped (fd_closed) does "
+                "not go on buffering new data nobody can read: handle_established tests fd_closed and aborts (RST) from that side - "
+                "otherwise two orphaned ends fill each other's window and stay in the table, ports bound, forever")
+    oc = ctx.body(R, "turmoil_net::kernel::tcp::on_close")
+    if oc:
+        reads_port = reads_dom = False
+        for fb in ctx.w.family(oc.id):
+            for sbb, te, fe, o in guards_on(fb, lambda o: True):
+                at = Slicer(ctx.w).atoms(fb, fb.term(sbb)["d"])
+                if "field:turmoil_net::kernel::socket::BindKey::local_port" in at:
+                    reads_port = True
+                if "field:turmoil_net::kernel::socket::BindKey::domain" in at:
+                    reads_dom = True
+        ctx.inst(R, "on_close:sweep-compares-family", reads_port and reads_dom, oc.span, "children are selected by port and address family" if reads_port and reads_dom else
+                 "the listener's child sweep selects SynReceived children by port (and address) only, never by address family: dropping 0.0.0.0:p resets the "
+                 "half-open children of [::]:p - an IPv6 connect gets ConnectionReset although its listener was up with backlog room")
+    pc = ctx.body(R, "turmoil_net::kernel::tcp::poll_connect")
+    if pc:
+        okv = None
+        for sbb, m, els, adt, pl in variant_edges(pc, lambda p: place_last_field(p) == STATE or STATE in root_place(pc, p)[1]):
+            if "Established" in m:
+                est, cw = m["Established"], m.get("CloseWait", els)
+                okv = est[1] == cw[1] or (set(pc.reachable(est[1])) == set(pc.reachable(cw[1])))
+        ctx.inst(R, "poll_connect:close-wait-is-connected", bool(okv), pc.span, "CloseWait is reported as a completed connect" if okv else
+                 "poll_connect maps CloseWait to the `peer reset` arm: a connect future first polled after the peer's FIN arrived returns ConnectionRefused for a "
+                 "connection the server accepted (and the greeting it sent is never read)")
+    he = ctx.body(R, "turmoil_net::kernel::tcp::handle_established")
+    if he:
+        ab = [bb for bb, t in he.calls(re.compile(r"tcp::(abort_connection|abort_with|emit_rst)$"))]
+        ok = False
+        for sbb, te, fe, o in guards_on(he, lambda o: True):
+            at = Slicer(ctx.w).atoms(he, he.term(sbb)["d"])
+            if "field:turmoil_net::kernel::socket::Socket::fd_closed" in at and any(x in he.reachable(e[1]) for e in te for x in ab):
+                ok = True
+        ctx.inst(R, "handle_established:orphan-takes-no-new-data", ok, he.span, "new data for an orphaned socket resets the connection" if ok else
+                 "handle_established never looks at Socket::fd_closed: an orphaned socket keeps buffering the peer's data until its window closes, and if the peer is "
+                 "orphaned too (connect + drop against accept + write + drop) both ends wait forever - FIN_WAIT2 / LAST_ACK entries that keep their ports bound")
+    ctx.floor(R, 3)
+
+
 def run(ctx):
+    r9(ctx)
     scan_rule(ctx, "C13")
     r7(ctx)
     r1(ctx)
